@@ -26,7 +26,7 @@ ASSUMPTIONS = c03.ASSUMPTIONS + [
 
 @st.composite
 def cases(draw, tier):
-    spec = draw(c03.cases(tier))
+    spec = draw(c03.cases(tier, big=False))
     spec.pop("rma", None)
     spec.pop("ignore", None)
     spec["sentinel"] = draw(st.sampled_from([0, -1, 99.5]))
